@@ -160,7 +160,7 @@ func randomBehaviour(rnd *rand.Rand) []map[string]any {
 			op := m("op", "apply", "fw", 0, "fr", 0, "pre", "none", "prefail", false)
 			switch rnd.Intn(10) {
 			case 0:
-				op["fw"] = []int{1, 1, 1, 99}[rnd.Intn(4)]
+				op["fw"] = []int{1, 1, 6, 99}[rnd.Intn(4)]
 			case 1:
 				op["fr"] = []int{1, 1, 99}[rnd.Intn(3)]
 			case 2, 3:
